@@ -14,6 +14,15 @@ CHECKS = {
     note="values from small alphabets on a quarter grid; observables read from a deep copy; TLC, the JSON module and the "
          "harness encoder are trusted",
     technique="TLA+ model (IODataObj.tla) checked with TLC + batched trace validation of real IOData histories and replay of TLC-simulated behaviours"),
+ "C12": dict(
+    category="model_checking", design_ref="DESIGN.md section 6 C12",
+    text="TLC checks SpinSum, Nelec, SpinpolAbs, Slices, length/count consistency, SetSpinKeepsOther, RejectedIsNoop and "
+         "GeneralizedRefuses on every construction and every assignment sequence up to a depth of a bounded Orbitals model; "
+         "exhaustive assignment trees, all construction-argument combinations and seeded random histories (up to 6 orbitals "
+         "per spin) of the real MolecularOrbitals class, and constructions of the real Shell class over all small shape "
+         "tuples and every (l, kind), are validated against the same operators by TLC.",
+    note="occupations on a 2^-20 grid (exact); occsa/occsb never assigned None; observables read from a deep copy",
+    technique="TLA+ model (Orbitals.tla) checked with TLC + batched trace validation of real MolecularOrbitals histories and Shell constructions"),
 }
 NOT_YET = "check not built yet in this round (planned, see DESIGN.md section 6)"
 
